@@ -289,6 +289,11 @@ func c10Mutations(typ string, base ref.V) []payMut {
 		oor("pol", "int=2^53-in-first-of-three-statements", first, true)
 		inAnd := ref.Policy{{Kind: "and", Subs: []ref.Stmt{{Kind: ">", Sel: ref.Sel{{Kind: ref.SField, Name: "a"}}, Val: ref.Int(-(1 << 53))}, {Kind: "==", Sel: ref.Sel{{Kind: ref.SField, Name: "b"}}, Val: ref.Int(1)}}}}.ToV()
 		oor("pol", "int=-2^53-first-under-and", inAnd, true)
+		// a bare statement where the list of statements belongs (in range and out of range)
+		oor("pol", "bare-statement", ref.List(ref.Str("=="), ref.Str(".a"), ref.Int(1)), true)
+		oor("pol", "bare-statement-int=2^53", ref.List(ref.Str("=="), ref.Str(".quota"), ref.Int(1<<53)), true)
+		oor("pol", "bare-not-statement-int=2^53", ref.List(ref.Str("not"), ref.List(ref.Str(">"), ref.Str(".quota"), ref.Int(1<<53))), true)
+		oor("pol", "bare-statement-int=-2^53", ref.List(ref.Str("<="), ref.Str(".quota"), ref.Int(-(1<<53))), true)
 		oor("pol", "not-a-statement", ref.List(ref.Int(1)), true)
 		oor("pol", "unknown-operator", ref.List(ref.List(ref.Str("==="), ref.Str(".a"), ref.Int(1))), true)
 		oor("pol", "bad-selector", ref.List(ref.List(ref.Str("=="), ref.Str("a"), ref.Int(1))), true)
